@@ -53,6 +53,13 @@ N3 ==
     /\ dev = Cfg(A, [n \in {"Netspoc-" \o x : x \in UsedG(A, {"g0", "g1"})} |-> IF n = "Netspoc-g0" THEN da ELSE db], FALSE)
     /\ tgt = Cfg(B, [n \in {"Netspoc-" \o x : x \in UsedG(B, {"g0", "g1"})} |-> IF n = "Netspoc-g0" THEN ta ELSE tb], FALSE)
 
+(* N4: the manager holds Netspoc-g0 and Netspoc-g0-1 (the result of an earlier approve that had to rename a *)
+(* clashing group); the target again has g0 / g1 with any contents                                            *)
+N4 ==
+  \E A \in SubsetsUpTo(Bodies("g0", "g0-1"), MaxLen), B \in SubsetsUpTo(Bodies("g0", "g1"), MaxLen), da, db, ta, tb \in GSets :
+    /\ dev = Cfg(A, [n \in {"Netspoc-" \o x : x \in UsedG(A, {"g0", "g0-1"})} |-> IF n = "Netspoc-g0" THEN da ELSE db], FALSE)
+    /\ tgt = Cfg(B, [n \in {"Netspoc-" \o x : x \in UsedG(B, {"g0", "g1"})} |-> IF n = "Netspoc-g0" THEN ta ELSE tb], FALSE)
+
 (* M1: merge of the Netspoc policies with a raw file (C18): raw rules join the policy of the same id, *)
 (* other raw policies are added; NSX orders rules by sequence number, there is no APPEND             *)
 RawV1 == {[id |-> "raw1", r |-> R(10, "ALLOW", "OUT", "10.9.9.9", "ANY", "ANY")],
@@ -91,7 +98,7 @@ M2 ==
           /\ tgt = v4 @@ [parts |-> [craw |-> [policies |-> rawpol, groups |-> NoFn, services |-> NoFn],
                                      merged |-> [policies |-> mpol, groups |-> gm, services |-> v4.services]]]
 
-Init == CASE Fam = "M2" -> M2 [] Fam = "M1" -> M1 [] Fam = "N3" -> N3 [] Fam = "N1" -> N1 [] Fam = "N2" -> N2
+Init == CASE Fam = "N4" -> N4 [] Fam = "M2" -> M2 [] Fam = "M1" -> M1 [] Fam = "N3" -> N3 [] Fam = "N1" -> N1 [] Fam = "N2" -> N2
 Next == UNCHANGED <<dev, tgt>>
 HasTie == \E g, h \in DOMAIN dev.groups : g # h /\ dev.groups[g] = dev.groups[h]
 Out == PrintT(<<"VOUT", ToJson([fam |-> Fam, dev |-> dev, tgt |-> tgt, tie |-> HasTie])>>)
